@@ -271,7 +271,7 @@ def main():
             "serves_properties": [c["property_id"] for c in checks],
             "kind_free_text": "Machine-checked proofs in Coq 8.16.1 about hand-written executable Gallina models (coq/*.v, theorems in "
                               "coq/props/Cxx.v), tied to /repo on every run by evaluating the model with vm_compute on the inputs the real "
-                              "implementation was run on (and by regenerating table-shaped model data from the current tree)."}],
+                              "implementation was run on (by regenerating table-shaped model data from the current tree, and - for the decision functions of C13 and the scope-tree walk of C04 - by translating the current SOURCE TEXT to Gallina and re-checking theorems that the translated functions are the model's)."}],
         "checks": checks,
         "notes": "Known findings and fix: commits are listed in /verif/known_findings.json; seeded breaking changes in /verif/seeded/. "
                  "Evidence is rewritten by every run.",
